@@ -452,6 +452,35 @@ def post(ex, finished, extra_obs):
                        'A is not modified when ipiv is not provided (store '
                        'by %s at line %s)' % (srec[5] if len(srec) > 5 else
                                               '?', line), line)
+    # ---------------------------------------- frame assumed on the Python side
+    try:
+        from contracts.py.extern_cvxopt import LIB
+        assumed = LIB.mutators.get('cvxopt.lapack.' + fname)
+    except Exception:
+        assumed = None
+    if assumed is not None:
+        allowed = set(x.split()[0] for x in assumed)
+        seen = set()
+        for st, kind, val in finished:
+            parsed = st.ghost.get('parsed', {})
+            owner = {}
+            for k_, o_ in parsed.items():
+                if isinstance(o_, PyObj) and o_.buf is not None:
+                    owner[id(o_.buf)] = k_
+            for srec in st.stores:
+                r = srec[0]
+                if r.kind != 'matbuf' or id(r) not in owner:
+                    continue
+                nm = owner[id(r)]
+                key = (nm, srec[4])
+                if key in seen:
+                    continue
+                seen.add(key)
+                ob('kernel-frame', srec[3], z3.BoolVal(nm in allowed),
+                   'the store into argument %s at line %s is one the '
+                   'Python-side contract of lapack.%s lists (%s)' % (
+                       nm, srec[4], fname, ', '.join(sorted(allowed))),
+                   srec[4])
     ob('accept-reachable', [], z3.BoolVal(any_ok),
        'some path accepts its arguments (vacuity guard)')
     summ['skipped'] = sorted(skipped)
